@@ -196,9 +196,14 @@ def oracle(run, deep):
     n = run.n(3000, 40000) * (3 if deep else 1)
     for i in range(n):
         fam = rc.gen_family(run.rng) if i % 3 else rc.gen_family_dense(run.rng)
+        census = []
         try:
-            ctx, _ = rc.build_chain(fam)
+            ctx, _ = rc.build_chain(fam, census)
         except rc.BadFamily:
+            continue
+        shared = rc.shared_parameters(census)
+        if shared:
+            run.fail("violation", rc.SHARED_WHAT, {"family": fam, "shared_parameter_objects": shared[:6]})
             continue
         for _ in range(2):
             call = rc.gen_call(run.rng, fam) if i % 3 else rc.gen_call_dense(run.rng, fam)
@@ -213,6 +218,14 @@ def oracle(run, deep):
 
 def replay(run, data):
     d = data["data"]
-    obs, log = rc.run_call(d["family"], d["call"])
+    if "stdlib" in d:
+        return False
+    census = []
+    ctx, _ = rc.build_chain(d["family"], census)
+    if rc.shared_parameters(census):
+        return False
+    if "call" not in d:
+        return True
+    obs, log = rc.run_call(d["family"], d["call"], ctx)
     sp = rc.spec_resolve(d["family"], d["call"])
     return [obs, log] == [sp[0], sp[1]]
